@@ -949,6 +949,12 @@ pub fn generate_known(rng: &mut Rng, w: &mut CaseWriter) {
         let script = random_script(rng, t.len(), false);
         w.push("vcfr", vec![hex(&t), cap.to_string(), fmt_script(&script)]);
     }
+    for cap in [1usize, 3, 64] {
+        // not UTF-8 at all: an error in either tree; where the reader stops must not depend on cap
+        let t = b"sq0\t1\trs\xe9x\tA\t.\t.\tPASS\t.\nsq0\t2\t.\tA\t.\t.\t.\t.\n".to_vec();
+        let script = random_script(rng, t.len(), false);
+        w.push("vcfr", vec![hex(&t), cap.to_string(), fmt_script(&script)]);
+    }
     for _ in 0..6 {
         let t = gen_tab(rng, false, true);
         let script = random_script(rng, t.len(), false);
